@@ -562,7 +562,7 @@ func (sv stringValue) ToString(b io.Writer, s px.FormatContext, g px.RDetect) {
 }
 
 func (sv stringValue) ToKey() px.HashKey {
-	return px.HashKey(sv.String())
+	return stringKey(string(sv))
 }
 
 func (sv stringValue) ToLower() px.StringValue {
